@@ -8,6 +8,7 @@ import (
 	"go/constant"
 	"go/token"
 	"go/types"
+	"os"
 	"sort"
 	"strings"
 
@@ -255,8 +256,12 @@ func ruleBND(p *Prog, r *Report, fs []*ssa.Function, cont *contInfo, entry map[*
 				byMethod[m]++
 				continue
 			}
-			if allowREC && cont != nil && cont.contained[f] {
+			if allowREC && cont != nil && cont.contained[f] && !strings.HasPrefix(ob.Key, "arg-nonneg") {
+				// (a negative count panics with a string: `err = state.(error)` in the recover frame panics again)
 				r.OK(rl, key, at, "REC: only reachable through a recover frame (a run-time panic becomes the returned error)")
+				if os.Getenv("IMVERIF_LIST_REC") != "" {
+					fmt.Printf("REC-ONLY %s at %s: %s\n", key, at, ob.Detail)
+				}
 				byMethod["REC containment only"]++
 				continue
 			}
@@ -277,7 +282,14 @@ func ruleBND(p *Prog, r *Report, fs []*ssa.Function, cont *contInfo, entry map[*
 	var cons []string
 	for f, c := range e.contract {
 		if c != nil {
-			cons = append(cons, fmt.Sprintf("%s: nil error ⇒ len(result#%d) == %s", fnName(f), c.Res, f.Params[c.ArgEq].Name()))
+			switch {
+			case c.ArgEq >= 0:
+				cons = append(cons, fmt.Sprintf("%s: nil error ⇒ len(result#%d) == %s", fnName(f), c.Res, f.Params[c.ArgEq].Name()))
+			case c.MinArg > 0:
+				cons = append(cons, fmt.Sprintf("%s: nil error ⇒ len(result#%d) ≥ min(%s, %d)", fnName(f), c.Res, f.Params[c.MinArg-1].Name(), c.MinLen))
+			default:
+				cons = append(cons, fmt.Sprintf("%s: nil error ⇒ len(result#%d) ≥ %d", fnName(f), c.Res, c.MinLen))
+			}
 		}
 	}
 	sort.Strings(cons)
